@@ -49,17 +49,32 @@ Definition mean_square (sum sum2 N ptm : float) : float :=
 
 Definition clamp0 (x : float) : float := if PrimFloat.ltb x 0%float then 0%float else x.
 
+(* the record as float64 values *)
+Definition samples (signed : bool) (raw : list Z) : list float :=
+  map (fun v => f_of_Z (interp signed v)) raw.
+
+(* (val, valPTDelta) after the first loop *)
+Definition acc_pre (signed : bool) (npre : Z) (raw : list Z) : float * float :=
+  let dv := samples signed raw in
+  let d0 := hd 0%float dv in
+  let xmean := (f_of_Z (npre - 1) * 0.5)%float in
+  pre_loop d0 xmean 0 (zfirstn npre dv) 0%float 0%float.
+
+Definition ptm_of (signed : bool) (npre : Z) (raw : list Z) : float :=
+  (fst (acc_pre signed npre raw) / f_of_Z npre)%float.
+
+(* (sum, sum2, max) after the second loop *)
+Definition acc_post (signed : bool) (npre : Z) (raw : list Z) : float * float * float :=
+  post_loop (zskipn npre (samples signed raw)) 0%float 0%float (ptm_of signed npre raw).
+
 Definition analyze_gen (fixed : bool) (signed : bool) (npre : Z) (raw : list Z) : res scalars :=
   let n := zlen raw in
   if (n =? 0) || (npre <? 0) || (npre >? n) then Panic
   else
-    let dv := map (fun v => f_of_Z (interp signed v)) raw in
-    let d0 := hd 0%float dv in
-    let xmean := (f_of_Z (npre - 1) * 0.5)%float in
-    let '(val, vd) := pre_loop d0 xmean 0 (zfirstn npre dv) 0%float 0%float in
-    let ptm := (val / f_of_Z npre)%float in
+    let vd := snd (acc_pre signed npre raw) in
+    let ptm := ptm_of signed npre raw in
     let delta := if npre <=? 1 then nan else (vd * 12 / f_of_Z (npre * (npre + 1)))%float in
-    let '(sum, sum2, mx) := post_loop (zskipn npre dv) 0%float 0%float ptm in
+    let '(sum, sum2, mx) := acc_post signed npre raw in
     let N := f_of_Z (n - npre) in
     let ms := mean_square sum sum2 N ptm in
     let ms := if fixed then clamp0 ms else ms in
